@@ -1,3 +1,272 @@
 package main
 
-func genParse() {}
+import (
+	"fmt"
+	"go/ast"
+	"go/token"
+	"sort"
+	"strings"
+)
+
+// NodeType constant block of parse/ntypes.go, in order
+func extractNodeTypes() []string {
+	_, f := parseFile("parse/ntypes.go")
+	var names []string
+	if f == nil {
+		return nil
+	}
+	for _, d := range f.Decls {
+		gd, ok := d.(*ast.GenDecl)
+		if !ok || gd.Tok != token.CONST {
+			continue
+		}
+		first := gd.Specs[0].(*ast.ValueSpec)
+		if first.Names[0].Name != "NodeUnknown" {
+			continue
+		}
+		for _, sp := range gd.Specs {
+			names = append(names, sp.(*ast.ValueSpec).Names[0].Name)
+		}
+	}
+	if len(names) == 0 {
+		fail("ntypes.go: NodeType const block not found")
+	}
+	return names
+}
+
+// nodeNames: array literal indexed by constant
+func extractNodeNames() map[string]string {
+	_, f := parseFile("parse/ntypes.go")
+	out := map[string]string{}
+	cl, ok := findVar(f, "nodeNames").(*ast.CompositeLit)
+	if !ok {
+		fail("ntypes.go: nodeNames not a composite literal")
+		return out
+	}
+	for _, el := range cl.Elts {
+		kv, ok := el.(*ast.KeyValueExpr)
+		if !ok {
+			fail("nodeNames: element without key")
+			continue
+		}
+		s, ok := unquote(kv.Value)
+		if !ok {
+			fail("nodeNames[%s]: not a string", exprString(kv.Key))
+		}
+		out[exprString(kv.Key)] = s
+	}
+	return out
+}
+
+type cardCell struct{ child, start, end string }
+
+// cardinalities: map literal NodeX: { NodeY: {'0','n'}, … }
+func extractCardinalities() map[string][]cardCell {
+	_, f := parseFile("parse/cardinality.go")
+	out := map[string][]cardCell{}
+	cl, ok := findVar(f, "cardinalities").(*ast.CompositeLit)
+	if !ok {
+		fail("cardinality.go: cardinalities not a composite literal")
+		return out
+	}
+	for _, el := range cl.Elts {
+		kv := el.(*ast.KeyValueExpr)
+		parent := exprString(kv.Key)
+		row, ok := kv.Value.(*ast.CompositeLit)
+		if !ok {
+			fail("cardinalities[%s]: not a literal", parent)
+			continue
+		}
+		for _, ce := range row.Elts {
+			ckv := ce.(*ast.KeyValueExpr)
+			cell, ok := ckv.Value.(*ast.CompositeLit)
+			if !ok || len(cell.Elts) != 2 {
+				fail("cardinalities[%s][%s]: unexpected cell", parent, exprString(ckv.Key))
+				continue
+			}
+			s, ok1 := unquote(cell.Elts[0])
+			e, ok2 := unquote(cell.Elts[1])
+			if !ok1 || !ok2 {
+				fail("cardinalities[%s][%s]: cell not two rune literals", parent, exprString(ckv.Key))
+			}
+			out[parent] = append(out[parent], cardCell{exprString(ckv.Key), s, e})
+		}
+		sort.Slice(out[parent], func(i, j int) bool { return out[parent][i].child < out[parent][j].child })
+	}
+	return out
+}
+
+// getArgByType: case lists → argument kind (the constructor name in the return statement)
+func extractArgKinds() map[string]string {
+	_, f := parseFile("parse/arg.go")
+	fd := findFunc(f, "", "getArgByType")
+	out := map[string]string{}
+	if fd == nil {
+		fail("arg.go: getArgByType not found")
+		return out
+	}
+	ast.Inspect(fd.Body, func(n ast.Node) bool {
+		cc, ok := n.(*ast.CaseClause)
+		if !ok {
+			return true
+		}
+		kind := ""
+		for _, st := range cc.Body {
+			if rs, ok := st.(*ast.ReturnStmt); ok && len(rs.Results) == 1 {
+				e := rs.Results[0]
+				if u, ok := e.(*ast.UnaryExpr); ok {
+					e = u.X
+				}
+				if cl, ok := e.(*ast.CompositeLit); ok {
+					kind = exprString(cl.Type)
+				}
+			}
+		}
+		if kind == "" {
+			// no direct `return &X{…}`: name every argument type constructed in the clause, or "panic"
+			var kinds []string
+			for _, st := range cc.Body {
+				ast.Inspect(st, func(m ast.Node) bool {
+					if cl, ok := m.(*ast.CompositeLit); ok {
+						kinds = append(kinds, exprString(cl.Type))
+					}
+					if ce, ok := m.(*ast.CallExpr); ok && exprString(ce.Fun) == "panic" {
+						kinds = append(kinds, "panic")
+					}
+					return true
+				})
+			}
+			kind = strings.Join(kinds, "|")
+		}
+		if kind == "" && len(cc.List) > 0 {
+			fail("getArgByType: case %s without a recognisable return", exprString(cc.List[0]))
+		}
+		for _, e := range cc.List {
+			out[exprString(e)] = kind
+		}
+		if len(cc.List) == 0 && kind != "" {
+			out["default"] = kind
+		}
+		return true
+	})
+	return out
+}
+
+// Is*Node range predicates of ntypes.go: "(t > A) && (t < B)" → [A, B]
+func extractRangePreds() map[string][]string {
+	_, f := parseFile("parse/ntypes.go")
+	out := map[string][]string{}
+	if f == nil {
+		return out
+	}
+	for _, d := range f.Decls {
+		fd, ok := d.(*ast.FuncDecl)
+		if !ok || fd.Recv == nil || !strings.HasPrefix(fd.Name.Name, "Is") {
+			continue
+		}
+		var idents []string
+		ast.Inspect(fd.Body, func(n ast.Node) bool {
+			if id, ok := n.(*ast.Ident); ok && strings.HasPrefix(id.Name, "Node") {
+				idents = append(idents, id.Name)
+			}
+			if ce, ok := n.(*ast.CallExpr); ok {
+				idents = append(idents, "call:"+exprString(ce.Fun))
+			}
+			return true
+		})
+		out[fd.Name.Name] = idents
+	}
+	return out
+}
+
+// checkModule: the section of each case list (by order of appearance: header, linkage, meta, revision)
+func extractModuleSections() [][]string {
+	_, f := parseFile("parse/module.go")
+	fd := findFunc(f, "", "checkModule")
+	var out [][]string
+	if fd == nil {
+		fail("module.go: checkModule not found")
+		return nil
+	}
+	ast.Inspect(fd.Body, func(n ast.Node) bool {
+		cc, ok := n.(*ast.CaseClause)
+		if !ok {
+			return true
+		}
+		var g []string
+		for _, e := range cc.List {
+			g = append(g, exprString(e))
+		}
+		if len(cc.List) == 0 {
+			g = []string{"default"}
+		}
+		out = append(out, g)
+		return true
+	})
+	return out
+}
+
+func genParse() {
+	var b strings.Builder
+	types := extractNodeTypes()
+	fmt.Fprintf(&b, "/-- parse/ntypes.go: the NodeType constants in declaration order (the Is*Node predicates are ranges over it) -/\ndef nodeTypes : List String := %s\n\n", leanStrList(types))
+	names := extractNodeNames()
+	b.WriteString("/-- parse/ntypes.go `nodeNames`: constant ↦ keyword -/\ndef nodeNames : List (String × String) := [\n")
+	ks := sortedKeys(names)
+	for i, k := range ks {
+		sep := ","
+		if i == len(ks)-1 {
+			sep = ""
+		}
+		fmt.Fprintf(&b, "  (%s, %s)%s\n", leanStr(k), leanStr(names[k]), sep)
+	}
+	b.WriteString("]\n\n")
+	cards := extractCardinalities()
+	b.WriteString("/-- parse/cardinality.go `cardinalities`: parent ↦ [(child, start, end)] sorted by child -/\ndef cardinalities : List (String × List (String × String × String)) := [\n")
+	ps := sortedKeys(cards)
+	for i, p := range ps {
+		var cells []string
+		for _, c := range cards[p] {
+			cells = append(cells, fmt.Sprintf("(%s, %s, %s)", leanStr(c.child), leanStr(c.start), leanStr(c.end)))
+		}
+		sep := ","
+		if i == len(ps)-1 {
+			sep = ""
+		}
+		fmt.Fprintf(&b, "  (%s, [%s])%s\n", leanStr(p), strings.Join(cells, ", "), sep)
+	}
+	b.WriteString("]\n\n")
+	ak := extractArgKinds()
+	b.WriteString("/-- parse/arg.go `getArgByType`: node type ↦ argument kind -/\ndef argKinds : List (String × String) := [\n")
+	aks := sortedKeys(ak)
+	for i, k := range aks {
+		sep := ","
+		if i == len(aks)-1 {
+			sep = ""
+		}
+		fmt.Fprintf(&b, "  (%s, %s)%s\n", leanStr(k), leanStr(ak[k]), sep)
+	}
+	b.WriteString("]\n\n")
+	rp := extractRangePreds()
+	b.WriteString("/-- the identifiers each Is*Node predicate mentions (range bounds / calls) -/\ndef rangePreds : List (String × List String) := [\n")
+	rks := sortedKeys(rp)
+	for i, k := range rks {
+		sep := ","
+		if i == len(rks)-1 {
+			sep = ""
+		}
+		fmt.Fprintf(&b, "  (%s, %s)%s\n", leanStr(k), leanStrList(rp[k]), sep)
+	}
+	b.WriteString("]\n\n")
+	ms := extractModuleSections()
+	b.WriteString("/-- parse/module.go `checkModule`: the case lists in order -/\ndef moduleSections : List (List String) := [\n")
+	for i, g := range ms {
+		sep := ","
+		if i == len(ms)-1 {
+			sep = ""
+		}
+		fmt.Fprintf(&b, "  %s%s\n", leanStrList(g), sep)
+	}
+	b.WriteString("]\n")
+	writeLean("Parse", b.String())
+}
